@@ -25,14 +25,12 @@ Definition send_sig (sg : option nat) (id : nat) (sm : sigst) : sigst :=
   end.
 
 (** [Sched.resume_block]: the user future is polled (and, being resolved, returns); the signalling
-    function sends the signal there; then the rest of the block runs. *)
+    function sends the signal there; then the rest of the block runs.  The rest of the block
+    ([finish_block]) neither reads nor writes the pending-signal counter, so the send is recorded
+    after it: [resume_block_sig] is [resume_block] followed by the send. *)
 Definition resume_block_sig (sg : option nat) (cf : cfg) (sm : sigst) (m : member) (id : nat) : sigst * bool :=
-  match lookup id (completed (fst sm)) with
-  | Some ok =>
-    let '(s, mk) := send_sig sg id sm in
-    ((finish_block cf (s <| completed := remove_key id (completed s) |>) m id ok, mk), true)
-  | None => (sm, false)
-  end.
+  let '(s', b) := resume_block cf (fst sm) m id in
+  if b then (send_sig sg id (s', snd sm), true) else ((s', snd sm), false).
 
 Definition block_poll_sig (sg : option nat) (cf : cfg) (sm : sigst) (m : member) : sigst * bool :=
   let '(s, mk) := sm in
